@@ -68,7 +68,7 @@ Accepted(e) == Answered(e) /\ Main(e).cause = 1
 \* all checks a step can make; TRUE unless the step sets them
 ChkOK == [one |-> TRUE, type |-> TRUE, seq |-> TRUE, hdrSeid |-> TRUE, cause |-> TRUE, shape |-> TRUE, created |-> TRUE,
           mustReject |-> TRUE, writesNothing |-> TRUE, seidLegal |-> TRUE, teidLegal |-> TRUE, ipLegal |-> TRUE,
-          ipRefusal |-> TRUE, teidProgrammed |-> TRUE, addressed |-> TRUE, startEmpty |-> TRUE, envelope |-> TRUE, markers |-> TRUE,
+          ipRefusal |-> TRUE, teidProgrammed |-> TRUE, addressed |-> TRUE, mustAccept |-> TRUE, startEmpty |-> TRUE, envelope |-> TRUE, markers |-> TRUE,
           pfdKept |-> TRUE, hbTs |-> TRUE]
 
 \* C02 checks common to every request kind
@@ -253,6 +253,14 @@ EstabEv ==
                \* a rejection carries the CP SEID of the request or zero; for an unknown association the statement fixes nothing more
                !.hdrSeid = (Answered(e) => (m.seid = "zero" \/ m.seid = req.cp)),
                !.writesNothing = (Answered(e) /\ EstabNoAssoc(p, req) => e.cmds = cmds),
+               \* (used by C08 only, whose runs inject no fault and allocate nothing: there a well-formed establishment on an
+               \* association has no reason to be refused - e.g. not because a rejected PFD request damaged the table)
+               \* a PDR whose filter has a true port range may be refused (how wide a range the installation strategy
+               \* represents is an implementation constant, C17)
+               !.mustAccept = (EstabMustReject(p, req)
+                               \/ \E i \in 1..Len(req.cpdr) :
+                                     LET f == PdrFilter(req.cpdr[i], UeOf(req.cpdr[i], Zero32), PfdOf(p)).flt
+                                     IN IsTrueRange(f.sports) \/ IsTrueRange(f.dports)),
                !.ipRefusal = TRUE]
   \* establishments sent concurrently are recorded one after the other with the tables as they were after the
   \* whole burst; the image is judged at the last line of the burst only (it carries burst = FALSE)
@@ -464,6 +472,17 @@ C07_ReportedEqualsProgrammed ==
   (last.ev = "req" /\ last.kind = "estab" /\ last.accepted) =>
      \/ \E sq \in SessQerChoices(sess[last.u]) : PdrImageOK(tables.pdr, last.u, sess[last.u], sq)
      \/ last.u \in Relaxed /\ PdrImageRelabelOK(tables.pdr, last.u, sess[last.u])
+
+\* C08: the pdrLookup entries of the session just established / modified carry exactly the filter its PDRs denote
+\* (inline SDF filter oriented by the PDR's direction, PFD-backed application id verbatim, malformed text ignored)
+C08_FilterMeansWhatItSays ==
+  (last.ev = "req" /\ last.kind \in {"estab", "mod"} /\ last.accepted) =>
+     \/ \E sq \in SessQerChoices(sess[last.u]) : PdrImageOK(tables.pdr, last.u, sess[last.u], sq)
+     \/ last.u \in Relaxed /\ PdrImageRelabelOK(tables.pdr, last.u, sess[last.u])
+\* a PFD Management Request is answered; the table it leaves (whole replacement on accept, unchanged on reject) is what
+\* later PDRs naming an application id are judged against by C08_FilterMeansWhatItSays
+C08_PfdTableReplacedOrKept == (last.ev = "req" /\ last.kind = "pfd") => chk.one /\ chk.type
+C08_ProvisionedApplicationUsable == chk.mustAccept
 
 \* C09 (BESS): QER values as signalled, session-level QER chosen soundly
 QosCfg == [q \in {cfg.qos[i].qfi : i \in 1..Len(cfg.qos)} |-> cfg.qos[CHOOSE i \in 1..Len(cfg.qos) : cfg.qos[i].qfi = q]]
